@@ -128,7 +128,7 @@ def hex_flake(rng, n_hex):
     return adj
 
 
-TEMPLATES = ['c1ccccc1', 'c1ccc2ccccc2c1', 'c1ccc2cc3ccccc3cc2c1', 'c1cc2ccc3cccc4ccc(c1)c2c34', 'c1ccc2c(c1)ccc1ccccc12', 'c1ccc2c(c1)c1cccc3cccc2c31',
+TEMPLATES = ['c13c2c4c(c12)c34', 'c1ccccc1', 'c1ccc2ccccc2c1', 'c1ccc2cc3ccccc3cc2c1', 'c1cc2ccc3cccc4ccc(c1)c2c34', 'c1ccc2c(c1)ccc1ccccc12', 'c1ccc2c(c1)c1cccc3cccc2c31',
              'c1cc2cccc3ccc4cccc5ccc(c1)c2c3c45', 'c1ccc2[nH]ccc2c1', 'c1ccc2occc2c1', 'c1ccc2sccc2c1', 'c1ccncc1', 'c1ccc2ncccc2c1', 'c1cnc2ccccc2n1', 'Cn1cccc1', 'c1cc[nH]c1',
              'c1ccoc1', 'c1ccsc1', 'c1cnc[nH]1', 'c1ccc2[nH]c3ccccc3c2c1', 'c1cc2ccc3ccc4ccc5ccc6ccc1c1c2c3c4c5c61', 'c1ccpcc1', 'c1cc[n+](C)cc1', 'c1ccc2cc3cc4ccccc4cc3cc2c1',
              'c1ccc2c(c1)c1ccccc1c1ccccc21', 'c1cc2cc3ccc4cc5ccc6cc1c1c2c3c4c5c61', 'c1ccc(cc1)-c1ccccc1', 'c12c3c4c1c1c2c3c41', 'c1cc2ccc3ccc1c23', 'c1cccc1', 'c1cc1', 'c1ccccccc1',
@@ -162,6 +162,11 @@ def run(rep, tier, seed, b):
             if im != mm and not (isinstance(im, dict) or isinstance(mm, dict)):
                 rep.disagreements.append({'op': 'find_perfect_matching', 'input': {'graph': g}, 'impl': im, 'model': mm})
         res = mm if im == 'n/a' else im
+        if isinstance(im, dict):
+            # these graphs are symmetric and have no self loops: the routine raises nothing on them (proved of the model: EncGreedy.v / EncMatchSafe.v)
+            rep.disagreements.append({'op': 'find_perfect_matching', 'input': {'graph': g}, 'impl': im, 'model': mm})
+            rep.oracle_failures.append({'clause': 'find_perfect_matching returns a matching or None on a symmetric graph without self loops: it raises nothing',
+                                        'input': {'graph': g}, 'impl': im, 'klass': None})
         bad = None
         if isinstance(res, list) and valid is False:
             bad = 'a returned matching is a perfect matching of the graph'
@@ -222,6 +227,9 @@ def run(rep, tier, seed, b):
             rep.count('rejected')
             if E.ring_bond_mismatch(x):
                 rep.count('rejected: mismatched ring closure symbols (malformed input, not judged)')
+            elif im['err'] != 'EncoderError':
+                rep.oracle_failures.append({'clause': 'on an aromatic input the encoder succeeds or raises EncoderError - nothing else (acceptance must not depend on the atom order)',
+                                            'input': inp, 'impl': im, 'klass': classify(x)})
             elif kk.get('all_standard') and kk.get('has_kekule') and im['err'] == 'EncoderError':
                 rep.oracle_failures.append({'clause': 'for the standard aromatic atom kinds the encoder succeeds whenever an alternating assignment exists',
                                             'input': inp, 'impl': im, 'klass': classify(x)})
